@@ -364,6 +364,60 @@ async fn fragments(ctx: Ctx, frag: usize, value_lens: Vec<usize>, reliable: bool
     }
 }
 
+/// one reliable sample of `n` fragments; on their first transmission the fragments are delivered according to `keep`
+/// (0 only #1, 1 all but the last, 2 all but #257, 3 the odd ones, 4 none), everything afterwards is delivered
+async fn many_fragments(ctx: Ctx, n: usize, keep: u8) {
+    let f = ctx.factory("", None);
+    let n1 = node::<KeyedData>(&f, 0, "T").await;
+    let n2 = node::<KeyedData>(&f, 0, "T").await;
+    let w = n1.publisher.create_datawriter::<KeyedData>(&n1.topic, QosKind::Specific(reliable_w(HistoryQosPolicyKind::KeepAll, Some(100))), NO_LISTENER, NO_STATUS).await.expect("writer");
+    let r = n2.subscriber.create_datareader::<KeyedData>(&n2.topic, QosKind::Specific(reliable_r(HistoryQosPolicyKind::KeepAll)), NO_LISTENER, NO_STATUS).await.expect("reader");
+    if !wait_pub_matched(&ctx, &w, 1, 3000).await || !wait_sub_matched(&ctx, &r, 1, 3000).await {
+        ctx.violation("setup/no-match", "no match");
+        return;
+    }
+    let seen: Rc<std::cell::RefCell<std::collections::BTreeSet<u32>>> = Rc::new(std::cell::RefCell::new(Default::default()));
+    let s2 = seen.clone();
+    let total = n as u32;
+    crate::sim::with(|wd| {
+        wd.net.filter = Some(Box::new(move |d, m| {
+            if d.src != 0 || d.dst != 1 || d.meta {
+                return false;
+            }
+            let Some(sub) = m.subs.iter().find(|s| s.id == crate::wire::DATA_FRAG && crate::wire::is_user_entity(&s.writer)) else { return false };
+            let k = sub.frag_start;
+            let first_time = s2.borrow_mut().insert(k);
+            if !first_time {
+                return false;
+            }
+            let deliver = match keep {
+                0 => k == 1,
+                1 => k != total,
+                2 => k != 257,
+                3 => k % 2 == 1,
+                _ => false,
+            };
+            !deliver
+        }))
+    });
+    // serialized size = 16 + len (see value_len_for_serialized): n fragments of 8 bytes
+    let len = n * 8 - 16;
+    let s = sample(1, 7, len);
+    if w.write(s.clone(), None).await.is_err() {
+        ctx.violation("many-fragments/write-failed", "write");
+        return;
+    }
+    let ok = poll_until(&ctx, 50, 20_000, || async { !read_all(&r).await.is_empty() }).await;
+    let got = take_all(&r).await;
+    if !ok || got.len() != 1 {
+        ctx.violation(format!("many-fragments/not-delivered/keep={keep}"), format!("{n} fragments, {} distinct fragments transmitted at least once, {} samples presented after 20 s", seen.borrow().len(), got.len()));
+        return;
+    }
+    if got[0].data.as_ref() != Some(&s) {
+        ctx.violation(format!("many-fragments/payload-corrupt/keep={keep}"), "the presented sample differs from the written one");
+    }
+}
+
 pub fn c05(args: &Args) -> Vec<Scenario> {
     let t = args.thorough();
     let mut v = vec![];
@@ -389,6 +443,15 @@ pub fn c05(args: &Args) -> Vec<Scenario> {
                 }
             }
         }
+    }
+    // samples with more fragments than a fragment-number set can name (256): loss patterns that leave a missing fragment
+    // beyond the first 256 (the reader's NACK_FRAG construction indexed out of bounds before the C06 fix)
+    for (tag, keep) in [("only-first", 0u8), ("all-but-last", 1), ("all-but-257", 2), ("every-other", 3), ("none", 4)] {
+        v.push(Scenario::new(format!("C05.many-fragments[f=8,n=300,first-transmission={tag}]"), 0, move |ctx| many_fragments(ctx, 300, keep)).cfg(|c| {
+            c.fragment_size = 8;
+            c.horizon_ms = 60_000;
+            c.step_cap = 20_000_000;
+        }));
     }
     // two fragmented samples whose fragments interleave (3 fixed interleavings + fates)
     for &f in &[16usize, 64] {
